@@ -461,6 +461,15 @@ def synthetic(ctx: Ctx):
     add("static-dyadic", ["a"], [blank(floatfactor=[k, a, b, c, d], power2=p) for (k, a, b, c, d), p in
                                   [((0, 1, 0, 0, 0), 1), ((2, 1, 1, 0, 0), 0), ((3, 1, -1, 2, 5), -3), ((-2, 3, 0, 0, 1), 3), ((5, 0, 1, 0, 1), 1),
                                    ((1, 1, 0, 1, 0), 1), ((0, 2, 0, 0, 0), 0), ((-1, 4, 4, 0, 8), 5), ((7, -3, 7, 1, 1), -9)]])
+    # terms that cancel almost completely (the sum over graphs is an exact ring operation: rounding happens once, on the result):
+    # (2^24+1) - 2^24 = 1 with integer and with w components, equal and different powers of two, and through a parameter-dependent sign
+    BIG = 2 ** 24
+    add("near-cancel-integers", ["a"], [blank(floatfactor=[0, BIG + 1, 0, 0, 0]), blank(floatfactor=[0, BIG, 0, 0, 0], phase=[1, 1])])
+    add("near-cancel-powers", ["a"], [blank(floatfactor=[0, BIG + 1, 0, 0, 0], power2=-2), blank(floatfactor=[0, 2 * BIG, 0, 0, 0], power2=-4, phase=[1, 1])])
+    add("near-cancel-omega", ["a"], [blank(floatfactor=[0, 3, BIG + 1, 0, -5]), blank(floatfactor=[0, 0, BIG, 0, 0], phase=[1, 1]),
+                                     blank(floatfactor=[0, BIG + 3, 0, 0, 0], phase=[1, 4]), blank(floatfactor=[0, BIG, 0, 0, 0], phase=[5, 4])])
+    add("near-cancel-by-parameter", ["a", "b"], [blank(floatfactor=[0, BIG + 1, 0, 0, 0], pi_pair=[[["a"], ["1"]]]),
+                                                 blank(floatfactor=[0, BIG, 0, 0, 0], pi_pair=[[["1"], ["b"]]])])
     add("static-approx", ["a", "b"], [blank(approx=[0.3, -1.7], phasenodes=[[1, 4, ["a"]]]), blank(phase=[1, 3], halfpi1=[["b"]], has_halfpi_keys=[1]),
                                       blank(phase=[5, 8], approx=[-0.2, 0.4], power2=3), blank(phase=[1, 4], power2=-2)])
     add("approx-with-exact-graphs", ["a", "b"], [blank(phasenodes=[[3, 4, ["a", "b"]]]), blank(approx=[2.5, 0.0], pi_pair=[[["a"], ["b"]]])])
@@ -768,7 +777,8 @@ def check_case(ctx: Ctx, case, model_out, opaque, mods) -> None:
                     a = 1.0 if aid == -1 else abs(opaque[aid])
                     tol += 1e-5 * max(1, sum(abs(int(x)) for x in c4)) * 2.0 ** (p + p2) * a
         if tol is None:
-            tol = 1e-5 * max(ref_scale[ri], 1e-30)
+            # no model output: single-precision rounding of the exactly summed result (norm1 of the exact sum, not of the terms)
+            tol = 3e-6 * max(ref_exact[ri].norm1(), 1e-30) if not any_approx else 1e-5 * max(ref_scale[ri], 1e-30)
         tol = max(tol, 1e-5 * abs(want), 1e-37)
         ctx.count((name, ri), nontrivial=bool(kinds), bucket=bucket)
         if m_rows is not None:
